@@ -264,8 +264,11 @@ def main(path):
             else:
                 bindings['r'] = result
                 val = bool(call_clause(find_clause(meta['clause']), bindings))
-                out['confirmed'] = not val
-                out['detail'] = f'component {meta.get("component")} evaluated to {val} on the real post-state'
+                # the proof replaces callees by their contracts: a native run through the REAL callees that ends well does not
+                # contradict a counter-model that goes through a havocked callee
+                out['confirmed'] = True if not val else None
+                out['detail'] = f'component {meta.get("component")} evaluated to {val} on the real post-state' + (
+                    '' if not val else ' (the native run takes the real callees, the counter-model their contracts: no failing input found natively)')
         elif path_kind.startswith('at-call:'):
             callee_q = path_kind.split(':', 1)[1]
             owner = resolve(callee_q.rsplit('.', 1)[0])
